@@ -233,6 +233,7 @@ type Conn struct {
 	// configuration (set before use)
 	Chunk       int   // max bytes per Read (0 = as many as available)
 	YieldWrite  bool  // yield inside Write to widen writer overlap windows
+	SlowReturn  int   // Write yields/sleeps after the peer processed the bytes and before returning
 	LateWriteOK bool  // writes after the peer closed succeed and are discarded (default: fail)
 	WriteErr    error // error returned by failing writes (default io.ErrClosedPipe)
 
@@ -287,6 +288,19 @@ func (c *Conn) Write(b []byte) (int, error) {
 	if c.YieldWrite {
 		runtime.Gosched()
 	}
+	n, err := c.write(b)
+	if c.SlowReturn > 0 {
+		// a Write that returns late: the peer's answer may be processed by the reader before the
+		// writer continues (as on a fast loopback link)
+		for i := 0; i < c.SlowReturn; i++ {
+			runtime.Gosched()
+		}
+		time.Sleep(time.Duration(c.SlowReturn) * 20 * time.Microsecond)
+	}
+	return n, err
+}
+
+func (c *Conn) write(b []byte) (int, error) {
 	tr := c.Tr
 	tr.Mu.Lock()
 	defer tr.Mu.Unlock()
